@@ -131,6 +131,26 @@ FamAnalyzer ==
     : ia \in {"standard", "simple"}, ra \in {"", "custA"}, aa \in {"", "keyword"},
       ba \in {"", "simple"}, fa \in {"", "standard", "custA"} }
 
+\* SH. the SAME field mapping (in a Go-built mapping: one shared object) under
+\* sub-mappings and type mappings whose inherited default analyzers differ: every
+\* attachment resolves its own analyzer, for every document order
+FamShared ==
+  { Case("shared",
+         WithCustom([DefaultIM EXCEPT !.defAnalyzer = ia, !.typeField = "kind",
+            !.types = <<P("T1", [DefaultDM EXCEPT !.defAnalyzer = ta, !.props =
+                           <<P("a", [DefaultDM EXCEPT !.fields = <<fm>>])>>])>>,
+            !.def = [DefaultDM EXCEPT !.props =
+               <<P("a", [DefaultDM EXCEPT !.defAnalyzer = aa, !.fields = <<fm>>]),
+                 P("b", [DefaultDM EXCEPT !.defAnalyzer = ba, !.fields = <<fm>>]),
+                 P("c", [DefaultDM EXCEPT !.fields = <<fm>>])>>]]),
+         d)
+    : ia \in {"standard", "simple"}, ta \in {"keyword", "custA"}, aa \in {"keyword", "custA"},
+      ba \in {"", "simple"},
+      fm \in {TextFM, [TextFM EXCEPT !.name = "x", !.tv = FALSE]},
+      d \in { VMap(<<E("a", VStr(SText)), E("b", VStr(SText)), E("c", VStr(SText))>>),
+              VMap(<<E("c", VStr(SText)), E("b", VStr(SText)), E("a", VStr(SText))>>),
+              VMap(<<E("kind", VStr("T1")), E("a", VStr(SText))>>) } }
+
 \* T. type selection: type field / default type / type mappings present
 TypeT1 == [DefaultDM EXCEPT !.dynamic = FALSE,
                             !.props = <<P("a", [DefaultDM EXCEPT !.fields = <<NumFM>>])>>]
@@ -148,7 +168,7 @@ FamTypes ==
             !.types = (IF t1 THEN <<P("T1", TypeT1)>> ELSE <<>>) \o
                       (IF t2 THEN <<P("T2", TypeT2)>> ELSE <<>>)],
          TypeDocs[di])
-    : tf \in {"_type", "kind"}, dt \in {"_default", "T1"}, t1 \in BOOLEAN, t2 \in BOOLEAN,
+    : tf \in {"_type", "kind", ""}, dt \in {"_default", "T1"}, t1 \in BOOLEAN, t2 \in BOOLEAN,
       di \in 1..Len(TypeDocs) }
 
 \* M. several fields on one property: names, types, options must not mix
@@ -262,7 +282,7 @@ FamCross ==
 Cases ==
   FamCross \cup FamOptions \cup FamStructure \cup FamNested \cup FamAnalyzer \cup FamTypes
   \cup FamMulti \cup FamDynamic \cup FamDateFormat \cup FamAll \cup FamStruct
-  \cup FamIndexLevel \cup FamInvalid
+  \cup FamIndexLevel \cup FamInvalid \cup FamShared
 
 \* ------------------------------------------------------------------ spec
 
